@@ -5,6 +5,8 @@
 # against the copy. Prints one JSON line. Nothing is applied to /repo itself.
 set -u
 export GOFLAGS=-mod=mod GOPROXY=off GOSUMDB=off GOTOOLCHAIN=local
+# every scratch copy lives under a new path, so each run adds a few hundred MB to the Go build cache: trim it when the disk runs low
+if [ "$(df --output=avail -k / | tail -1)" -lt 40000000 ]; then go clean -cache; fi
 SRC="$(readlink -f "$1")"; K="$2"; PROP="$3"; TIER="${4:-quick}"
 DIFF="$SRC/change$K.diff"; [ -f "$DIFF" ] || DIFF="$SRC/patch.diff"
 S="$(mktemp -d /tmp/vseed.XXXXXX)"
